@@ -36,16 +36,19 @@ CONSTANTS EP,         \* endpoint names
           Ask,        \* model names requests may ask for (a superset: some are listed nowhere)
           Kinds,      \* endpoint kinds (profile types)
           Routes,     \* route families: "proxy" (any kind) or a provider prefix (= a kind)
+          Ops,        \* the kinds of step a generated walk may take (a filter inside Next: walks can be focused)
           MaxLen
 
 VARIABLES kind,       \* [EP -> Kinds]            scenario constant
-          cfg,        \* [lb, prio]: the configured balancer and the endpoints' priorities (scenario constant)
+          cfg,        \* [engine, lb, prio]: the configured proxy engine and balancer, the endpoints' priorities (scenario
+                      \* constant).  Both engines take the same steps at this grain -- that is part of the claim.
           up, lists,  \* the world
           status, known,
+          hb,         \* [EP -> 0..HBThreshold]: consecutive failed health probes (the health checker's breaker, C08)
           req,        \* the request in flight: [route, model, cands, tried, phase, served] or NoReq
           cnt,        \* [EP -> [ok, fail]]: attempts booked per endpoint (C19)
           act, scn
-vars == <<kind, cfg, up, lists, status, known, req, cnt, act, scn>>
+vars == <<kind, cfg, up, lists, status, known, hb, req, cnt, act, scn>>
 
 NoReq == [route |-> "", model |-> "", cands |-> {}, tried |-> {}, phase |-> "none", served |-> "none"]
 \* "proxy" and the translated Anthropic route take any kind; a provider prefix only its own
@@ -53,26 +56,34 @@ Allowed(route, e) == route \in {"proxy", "anthropic"} \/ kind[e] = route
 
 Balancers == {"round-robin", "priority", "least-connections"}
 Init == /\ kind \in [EP -> Kinds]
-        /\ cfg \in [lb : Balancers, prio : [EP -> 1..2]]
+        /\ cfg \in [engine : {"sherpa", "olla"}, lb : Balancers, prio : [EP -> 1..2]]
         /\ up = [e \in EP |-> "up"]
         /\ lists \in [EP -> SUBSET Models]
         \* the server has booted: every endpoint was probed and listed once
         /\ status = [e \in EP |-> "healthy"] /\ known = lists
+        /\ hb = [e \in EP |-> 0]
         /\ req = NoReq /\ act = "Init" /\ cnt = [e \in EP |-> [ok |-> 0, fail |-> 0]]
-        /\ scn = <<[op |-> "boot", kind |-> kind, lists |-> lists, lb |-> cfg.lb, prio |-> cfg.prio]>>
+        /\ scn = <<[op |-> "boot", kind |-> kind, lists |-> lists, engine |-> cfg.engine, lb |-> cfg.lb, prio |-> cfg.prio]>>
 
 Idle == req.phase = "none"
 
 (* ---- the world ---- *)
 SetUp(e, b) == /\ Idle /\ act' = "SetUp" /\ up[e] # b /\ up' = [up EXCEPT ![e] = b]   \* b \in Modes
-               /\ UNCHANGED <<kind, cfg, lists, status, known, req, cnt>>
+               /\ UNCHANGED <<kind, cfg, lists, status, known, hb, req, cnt>>
 Relist(e, S) == /\ Idle /\ act' = "Relist" /\ lists[e] # S /\ lists' = [lists EXCEPT ![e] = S]
-                /\ UNCHANGED <<kind, cfg, up, status, known, req, cnt>>
+                /\ UNCHANGED <<kind, cfg, up, status, known, hb, req, cnt>>
 
 (* ---- a health round ---- *)
+\* Every probe that does not say "healthy" counts against the endpoint's health breaker; at HBThreshold in a row
+\* the breaker is open and -- for its 30 s window, longer than a scenario -- the endpoint is not probed at all:
+\* it is reported offline whatever the world says, and cannot recover.
+HBThreshold == 3
+Probed(e) == hb[e] < HBThreshold
 Health == /\ Idle /\ act' = "Health"
-          /\ status' = [e \in EP |-> CASE up[e] = "up" -> "healthy" [] up[e] = "sick" -> "unhealthy" [] OTHER -> "offline"]
-          /\ known' = [e \in EP |-> IF up[e] = "up" /\ status[e] # "healthy" THEN lists[e] ELSE known[e]]
+          /\ status' = [e \in EP |-> CASE ~Probed(e) -> "offline"
+                                        [] up[e] = "up" -> "healthy" [] up[e] = "sick" -> "unhealthy" [] OTHER -> "offline"]
+          /\ hb' = [e \in EP |-> IF ~Probed(e) THEN hb[e] ELSE IF up[e] = "up" THEN 0 ELSE hb[e] + 1]
+          /\ known' = [e \in EP |-> IF Probed(e) /\ up[e] = "up" /\ status[e] # "healthy" THEN lists[e] ELSE known[e]]
           /\ UNCHANGED <<kind, cfg, up, lists, req, cnt>>
 
 (* ---- a request ---- *)
@@ -80,7 +91,7 @@ Cands(route, m) == {e \in EP : status[e] = "healthy" /\ Allowed(route, e) /\ m \
 Arrive(route, m) == /\ Idle /\ act' = "Arrive"
                     /\ req' = [route |-> route, model |-> m, cands |-> Cands(route, m), tried |-> {},
                                phase |-> "choosing", served |-> "none"]
-                    /\ UNCHANGED <<kind, cfg, up, lists, status, known, cnt>>
+                    /\ UNCHANGED <<kind, cfg, up, lists, status, known, hb, cnt>>
 \* one attempt on a candidate not tried yet.  Under the priority balancer every attempt -- the first and each
 \* failover -- goes to the highest priority tier of what is left (C06 inside the composition); the other balancers
 \* may take any remaining candidate.
@@ -93,31 +104,31 @@ Attempt(e) == /\ req.phase = "choosing" /\ Pick(e) /\ act' = "Attempt"
                  ELSE /\ req' = [req EXCEPT !.tried = @ \cup {e}]
                       /\ status' = [status EXCEPT ![e] = "offline"]          \* out of rotation until readmitted
                       /\ cnt' = [cnt EXCEPT ![e].fail = @ + 1]
-              /\ UNCHANGED <<kind, cfg, up, lists, known>>
+              /\ UNCHANGED <<kind, cfg, up, lists, known, hb>>
 \* the client has its answer
 Answer == /\ req.phase \in {"choosing", "served"} /\ act' = "Answer"
           /\ (req.phase = "choosing" => req.cands \subseteq req.tried)       \* an error only when nothing is left
           /\ req' = NoReq
-          /\ UNCHANGED <<kind, cfg, up, lists, status, known, cnt>>
+          /\ UNCHANGED <<kind, cfg, up, lists, status, known, hb, cnt>>
 
 \* a model listing under a provider prefix: only models olla knows on endpoints of that kind (C11)
 ListOK(route, ms) == ms \subseteq UNION {known[e] : e \in {x \in EP : Allowed(route, x)}}
-List(route) == /\ Idle /\ act' = "List" /\ UNCHANGED <<kind, cfg, up, lists, status, known, req, cnt>>
+List(route) == /\ Idle /\ act' = "List" /\ UNCHANGED <<kind, cfg, up, lists, status, known, hb, req, cnt>>
 
 Log(t) == scn' = Append(scn, t)
 Modes == {"up", "sick", "down"}
-Next == \/ \E e \in EP : \E b \in Modes : SetUp(e, b) /\ Log([op |-> "up", e |-> e, b |-> b])
-        \/ \E e \in EP : \E S \in SUBSET Models : Relist(e, S) /\ Log([op |-> "relist", e |-> e, S |-> S])
-        \/ Health /\ Log([op |-> "health"])
-        \/ \E r \in Routes : \E m \in Ask : Arrive(r, m) /\ Log([op |-> "req", route |-> r, model |-> m])
-        \/ \E r \in Routes \ {"proxy", "anthropic"} : List(r) /\ Log([op |-> "list", route |-> r])
+Next == \/ \E e \in EP : \E b \in Modes : "up" \in Ops /\ SetUp(e, b) /\ Log([op |-> "up", e |-> e, b |-> b])
+        \/ \E e \in EP : \E S \in SUBSET Models : "relist" \in Ops /\ Relist(e, S) /\ Log([op |-> "relist", e |-> e, S |-> S])
+        \/ "health" \in Ops /\ Health /\ Log([op |-> "health"])
+        \/ \E r \in Routes : \E m \in Ask : "req" \in Ops /\ Arrive(r, m) /\ Log([op |-> "req", route |-> r, model |-> m])
+        \/ \E r \in Routes \ {"proxy", "anthropic"} : "list" \in Ops /\ List(r) /\ Log([op |-> "list", route |-> r])
         \/ \E e \in EP : Attempt(e) /\ UNCHANGED scn
         \/ Answer /\ UNCHANGED scn
 Spec == Init /\ [][Next]_vars
 
 -----------------------------------------------------------------------------
 (* System-level invariants: what a user relies on, whatever the history *)
-TypeOK == /\ status \in [EP -> {"healthy", "unhealthy", "offline"}] /\ known \in [EP -> SUBSET Models]
+TypeOK == /\ hb \in [EP -> 0..HBThreshold] /\ status \in [EP -> {"healthy", "unhealthy", "offline"}] /\ known \in [EP -> SUBSET Models]
           /\ req.tried \subseteq req.cands
 \* whoever serves a request was a candidate of it: healthy at arrival, of the route's kind, known to list the model
 ServedByCandidate == req.served # "none" => req.served \in req.cands
@@ -128,10 +139,12 @@ RefusedIsOut == \A e \in req.tried : (e # req.served) => status[e] = "offline"
 \* olla's catalogue only ever holds what a backend really listed at some discovery: a model nobody ever listed
 \* is never a reason to contact anybody
 NeverListedNeverServed == (req.served # "none") => req.model \in Models
+\* an endpoint whose health breaker is open is out of rotation: no round while it is open reports it healthy
+OpenIsOut == \A e \in EP : hb[e] = HBThreshold => status[e] # "healthy"
 \* under the priority balancer nobody is contacted while a strictly higher-priority candidate is still untried
 TopTierFirst == cfg.lb = "priority" => \A e \in req.tried : \A x \in req.cands \ req.tried : cfg.prio[x] <= cfg.prio[e]
 
-View == <<kind, cfg, up, lists, status, known, req>>   \* (cnt only grows: left out of the bounded model's view)
+View == <<kind, cfg, up, lists, status, known, hb, req>>   \* (cnt only grows: left out of the bounded model's view)
 GenConstraint == Len(scn) <= MaxLen
 SimExport == (Len(scn) = MaxLen /\ Idle) => PrintT(<<"SCN", ToJson(scn)>>)
 =============================================================================
